@@ -90,6 +90,7 @@ type c16Run struct {
 	tests  map[int]z.Test
 	posts  map[int]z.PostTransform
 	failID map[int]bool
+	paths  map[int]string // IssuePath option of a test (if any)
 	nextID int
 }
 
@@ -98,10 +99,16 @@ func (h *c16Run) newTest() (int, z.Test) {
 	h.nextID++
 	fail := h.r.Intn(4) == 0
 	h.failID[id] = fail
+	opts := []z.TestOption{z.Message(fmt.Sprintf("test %d failed", id))}
+	if h.r.Intn(4) == 0 {
+		// a cross-field rule that files its issue under one of the field keys (which a later Pick / Omit may remove: the rule stays)
+		h.paths[id] = c16Keys[h.r.Intn(len(c16Keys))]
+		opts = append(opts, z.IssuePath(h.paths[id]))
+	}
 	t := z.TestFunc(fmt.Sprintf("t%d", id), func(val any, ctx z.Ctx) bool {
 		*h.calls = append(*h.calls, fmt.Sprintf("test%d(%T)", id, val))
 		return !fail
-	}, z.Message(fmt.Sprintf("test %d failed", id)))
+	}, opts...)
 	h.tests[id] = t
 	return id, t
 }
@@ -247,7 +254,7 @@ func selArgs(r *rng.Rand, keys []string) (args []any, desc string, set map[strin
 
 func (c16) RunCase(c *core.Ctx) {
 	r := c.R
-	h := &c16Run{r: r, tests: map[int]z.Test{}, posts: map[int]z.PostTransform{}, failID: map[int]bool{}}
+	h := &c16Run{r: r, tests: map[int]z.Test{}, posts: map[int]z.PostTransform{}, failID: map[int]bool{}, paths: map[int]string{}}
 	var log []string
 	h.calls = &log
 	// base schema
@@ -453,6 +460,13 @@ func (c16) RunCase(c *core.Ctx) {
 			}
 			nm.real = sm.real.Extend(ext)
 			nm.desc = fmt.Sprintf("S%d = S%d.Extend(%v)", len(schemas), src, ks)
+			if r.Bool() {
+				// the caller goes on using its z.Schema map (to build the next schema): the schema just built keeps the fields it was given
+				delete(ext, ks[0])
+				other := c16Keys[r.Intn(len(c16Keys))]
+				ext[other] = c16Child(other, r.Intn(3))
+				nm.desc += " (the argument map is changed afterwards)"
+			}
 		case 5: // Merge
 			others := []int{r.Intn(len(schemas))}
 			for r.Intn(10) < 6 && len(others) < 4 {
@@ -477,10 +491,14 @@ func (c16) RunCase(c *core.Ctx) {
 				sm.real = sm.real.Test(t)
 			} else {
 				fail := h.failID[id]
+				o := []z.TestOption{z.Message(fmt.Sprintf("test %d failed", id)), z.IssueCode(fmt.Sprintf("t%d", id))}
+				if p, ok := h.paths[id]; ok {
+					o = append(o, z.IssuePath(p))
+				}
 				sm.real = sm.real.TestFunc(func(val any, ctx z.Ctx) bool {
 					*h.calls = append(*h.calls, fmt.Sprintf("test%d(%T)", id, val))
 					return !fail
-				}, z.Message(fmt.Sprintf("test %d failed", id)), z.IssueCode(fmt.Sprintf("t%d", id)))
+				}, o...)
 			}
 			sm.tests = append(sm.tests, id)
 			sm.extended = true
